@@ -216,6 +216,10 @@ def a_coreGlue(T):
     this order, (2) no statement outside the slices rebinds or mutates a variable that flows between them
     (`info[...] = …` and the reordering of `settings` *for the info dict* after the run are allowed: the run is over),
     (3) the function returns `process_results(results_linear)` (or, under `split`, process_results of every column)."""
+    # the glue is a statement about the slices as they are translated: when one of them is not understood (moved into
+    # a helper, rewritten out of the sub-language) nothing is known about what flows between them -> fall back, too
+    # (NotFound / Untranslatable of the slice propagates); an interfering statement between UNDERSTOOD slices is `false`
+    a_coreEnum(T); a_coreRun(T); a_coreProcess(T)
     f = find(T['combo_runner'], FN)
     body = [s for s in f.body if not _is_doc(s)]
     def idx(pred, what, after=0):
